@@ -399,4 +399,32 @@ theorem mirror_agrees_reachable {gs : List Group} (ok : GenesisOK gs) (ops : Lis
 
 example : c2.mirror.Perm ([g0, stamped 1 gA].map (·.id)) := by decide
 
+/-! ## H. Write faults: a `Put`/`Delete` that returns an error -/
+
+/-- What durability asks for: when one of the four store writes of `save` fails with an error,
+    the chain is still in a state that represents some list (and the caller can retry). -/
+def FullStatementWriteFault : Prop :=
+  ∀ (l : List Group) (c : Chain) (g : Group) (j : Nat), Rep l c → IdOK g.id → l.length + 1 < lenBound →
+    addCheck c g = .ok → j < 4 → ∃ l', Rep l' (saveF c g (some j)).1
+
+/-- `save` ignores the error value of every `Put`: a failed `Put(gcount)` leaves `Count()=2` in
+    memory over `gcount=1` in the store (known findings writefault:*; replayed with hook H2b). -/
+theorem write_fault_counterexample : ¬ FullStatementWriteFault := by
+  intro h
+  obtain ⟨l', r'⟩ := h [g0] c1 gA 3 rep_c1 (by simp [IdOK, gA, cntKey]) (by simp [lenBound]) (by decide) (by decide)
+  have h1 := r'.count
+  have h2 := r'.cnt
+  have e1 : (saveF c1 gA (some 3)).1.count = 2 := by decide
+  have e2 : sget (saveF c1 gA (some 3)).1.disk cntKey = some (.cnt 1) := by decide
+  rw [e1] at h1
+  rw [e2] at h2
+  simp at h2
+  omega
+
+/-- A fault index beyond the operation's writes changes nothing (the partial, trivial part). -/
+theorem write_fault_beyond (c : Chain) (g : Group) (j : Nat) (hj : 4 ≤ j) :
+    saveF c g (some j) = (save c g, some (j - 4)) := by
+  have : ¬ j < 4 := by omega
+  simp [saveF, this]
+
 end Rangers.Props.C19
